@@ -63,11 +63,11 @@ func (f *Subtract) Call(s *slip.Scope, args slip.List, depth int) (dif slip.Obje
 				case slip.DoubleFloat:
 					dif = -td
 				case *slip.LongFloat:
-					dif = (*slip.LongFloat)((*big.Float)(td).Neg((*big.Float)(td)))
+					dif = (*slip.LongFloat)(new(big.Float).Neg((*big.Float)(td)))
 				case *slip.Bignum:
-					dif = (*slip.Bignum)((*big.Int)(td).Neg((*big.Int)(td)))
+					dif = (*slip.Bignum)(new(big.Int).Neg((*big.Int)(td)))
 				case *slip.Ratio:
-					dif = (*slip.Ratio)((*big.Rat)(td).Neg((*big.Rat)(td)))
+					dif = (*slip.Ratio)(new(big.Rat).Neg((*big.Rat)(td)))
 				case slip.Complex:
 					dif = slip.Complex(-complex128(td))
 				}
@@ -90,14 +90,14 @@ func (f *Subtract) Call(s *slip.Scope, args slip.List, depth int) (dif slip.Obje
 			dif = dif.(slip.DoubleFloat) - ta
 		case *slip.LongFloat:
 			syncFloatPrec(ta, dif.(*slip.LongFloat))
-			dif = (*slip.LongFloat)(((*big.Float)(dif.(*slip.LongFloat))).Sub(
+			dif = (*slip.LongFloat)(new(big.Float).Sub(
 				(*big.Float)(dif.(*slip.LongFloat)),
 				(*big.Float)(ta)),
 			)
 		case *slip.Bignum:
-			dif = (*slip.Bignum)(((*big.Int)(dif.(*slip.Bignum))).Sub((*big.Int)(dif.(*slip.Bignum)), (*big.Int)(ta)))
+			dif = (*slip.Bignum)(new(big.Int).Sub((*big.Int)(dif.(*slip.Bignum)), (*big.Int)(ta)))
 		case *slip.Ratio:
-			dif = (*slip.Ratio)(((*big.Rat)(dif.(*slip.Ratio))).Sub((*big.Rat)(dif.(*slip.Ratio)), (*big.Rat)(ta)))
+			dif = (*slip.Ratio)(new(big.Rat).Sub((*big.Rat)(dif.(*slip.Ratio)), (*big.Rat)(ta)))
 		case slip.Complex:
 			dif = slip.Complex(complex128(dif.(slip.Complex)) - complex128(ta))
 		}
